@@ -965,7 +965,7 @@ class BleDomain(Registry):
         message = BleDomain.bound("prepare_connevt", self.proto_version)(
             sequence_id=seq_id,
             direction=direction,
-            conn_evt=conn_evt
+            connection_event=conn_evt
         )
 
         # Add packets
